@@ -115,6 +115,12 @@ func New(ctx context.Context, log *slog.Logger, opts ...Opt) (*Engine, error) {
 		}
 	}
 
+	if len(e.mCfg.InitialValidatorSet.Validators) == 0 {
+		return nil, errors.New(
+			"initial validator set is empty (use tmengine.WithGenesis with a non-empty GenesisValidatorSet, or return validators from InitChain)",
+		)
+	}
+
 	// Set up a cancelable context in case any of the subsystems fail to create.
 	// We cancel the context in any error path to stop the subsystems,
 	// although we don't wait for them at that point.
